@@ -44,7 +44,7 @@ def floors_for(feats):
     w = 1 if "wrath-header" in feats else 0
     readers = 2 * v + 2 * t + 2 * w
     writers = 2 * v + 2 * t + 2 * w
-    return {"reader": 5 * readers, "writer": 4 * writers, "encoder": 2 * (2 * v + 2 * t + 1 * w), "decoder": 2 * (2 * v + 2 * t + 1 * w + 1 * v + 1 * w), "facade": 9 * v + 10 * t + 12 * w}
+    return {"reader": 5 * readers, "writer": 4 * writers, "encoder": 2 * (2 * v + 2 * t + 1 * w), "decoder": 2 * (2 * v + 2 * t + 1 * w), "facade": 9 * v + 9 * t + 11 * w}
 
 
 def methods_of(ctx, ty):
@@ -277,12 +277,12 @@ def decoder_rule(ctx, rep, owner, raw, name, b, kind, header_adt):
 
 
 def facade_rule(ctx, rep, comb, enc, dec):
+    """every facade method is a single delegation to the same-named method of the matching half;
+    a facade *decoder* may instead be coded out (raw operation + parse), in which case it is
+    checked as a sibling of the half's decoder"""
     ei = headers.half_field(ctx, comb, enc)
     di = headers.half_field(ctx, comb, dec)
-    separately_coded = {"vanilla_header::HeaderCrypto::decrypt_client_header", "wrath_header::ServerCrypto::decrypt_client_header"}
     for name, fam, b in headers.facade_methods(ctx, comb):
-        if b.path in separately_coded:
-            continue
         se = ctx.flat.run(b.path)
         half = enc if fam == "enc" else dec
         fi = ei if fam == "enc" else di
@@ -297,6 +297,12 @@ def facade_rule(ctx, rep, comb, enc, dec):
             want = tuple(("param", k) for k in range(2, b.arg_count + 1))
             good = c["name"] == "%s::%s" % (half, name) and self_ok and rest == want and (strip(se.ret) == strip(c["term"]) or (se.ret == ("zst", "()") and ctx.fb.ty(ctx.fb.body(c["name"]).d["output"]).s == "()"))
             desc = "%s(&mut self.<%s half>, %s)" % (c["name"], fam, ", ".join(show(x) for x in rest))
+        if not good and name in ("decrypt_server_header", "decrypt_client_header") and not comb.startswith("wrath_header::ClientCrypto"):
+            kind = "server" if "server" in name else "client"
+            out = ctx.fb.ty(b.d["output"])
+            if out.k == "adt":
+                decoder_rule(ctx, rep, comb, "decrypt", name, b, kind, out.path)
+                continue
         rep.check(good, "facade", b.path, "delegates", desc, "facade method is not a single delegation to %s::%s with its parameters in order: %s" % (half, name, desc), b.loc())
 
 
@@ -333,11 +339,6 @@ def check(ctx, rep):
                 if mod == "tbc_header":
                     adt = "vanilla_header::%sHeader" % ("Server" if kind == "server" else "Client") if adt not in fb.adts else adt
                 decoder_rule(ctx, rep, half, raw, name, b, kind, adt)
-    # separately coded facade decoders (siblings)
-    for fn, owner in (("vanilla_header::HeaderCrypto::decrypt_client_header", "vanilla_header::HeaderCrypto"), ("wrath_header::ServerCrypto::decrypt_client_header", "wrath_header::ServerCrypto")):
-        b = fb.body(fn)
-        if b is not None:
-            decoder_rule(ctx, rep, owner, "decrypt", "decrypt_client_header", b, "client", "vanilla_header::ClientHeader")
     for feat, comb, enc, dec in headers.active(ctx):
         facade_rule(ctx, rep, comb, enc, dec)
 
